@@ -206,7 +206,7 @@ fn c03_child(tier: &str) -> i32 {
         if sizes.iter().any(|z| *z > 100_000) {
             s.goal("message-of-more-than-100KB-over-a-real-socket");
         }
-        match c19::raw_wire_case(*rt, sizes, *drain, *small) {
+        match c19::raw_wire_case(*rt, sizes, *drain, *small, None) {
             Ok(n) => {
                 s.steps(sizes.len() as u64);
                 s.pass(xplore::H64::new().u(i).u(n).get())
@@ -215,6 +215,28 @@ fn c03_child(tier: &str) -> i32 {
         }
     });
     eprintln!("[C03 child] {} cases, {} violation classes, {:.1}s", st.evals, st.violations.len(), st.wall);
+    println!("{}", xplore::report::child_json(&[st], "C19"));
+    0
+}
+
+/// C02 over the shipped transports (child of the C02 check): sends abandoned while pending, more
+/// messages sent afterwards; the raw bytes at the other end of the real socket pair must be every
+/// message once, in order, each followed by one NUL.  Prints one JSON line.
+fn c02_child(tier: &str) -> i32 {
+    let cfg = Config { max_wall: std::time::Duration::from_secs(tier_pick(tier, 60, 900)), threads: 8, ..Default::default() };
+    let cases = c19::raw_wire_abandon_cases(tier == "thorough");
+    let st = sweep("raw-wire-bytes/abandoned-sends/tokio+smol", cases.len() as u64, &cfg, |i, s| {
+        let (rt, sizes, drain, small, ab) = &cases[i as usize];
+        s.goal("send-abandoned-then-more-messages-over-a-real-socket");
+        match c19::raw_wire_case(*rt, sizes, *drain, *small, Some(*ab)) {
+            Ok(n) => {
+                s.steps(sizes.len() as u64);
+                s.pass(xplore::H64::new().u(i).u(n).get())
+            }
+            Err((c, d)) => s.fail(c.replace("jsoneq:", "outframe:"), format!("{rt:?}: {d}"), json!({"raw_wire_case": [format!("{rt:?}"), sizes, if *drain == usize::MAX { json!("all") } else { json!(drain) }, small, [ab.0, ab.1]]})),
+        }
+    });
+    eprintln!("[C02 child] {} cases, {} violation classes, {:.1}s", st.evals, st.violations.len(), st.wall);
     println!("{}", xplore::report::child_json(&[st], "C19"));
     0
 }
@@ -280,7 +302,8 @@ fn replay(path: &str) -> i32 {
                 let rt = if c[0] == "Tokio" { RtKind::Tokio } else { RtKind::Smol };
                 let sizes: Vec<usize> = c[1].as_array().map(|a| a.iter().map(|x| x.as_u64().unwrap_or(300) as usize).collect()).unwrap_or_default();
                 let drain = c[2].as_u64().map(|d| d as usize).unwrap_or(usize::MAX);
-                let r = c19::raw_wire_case(rt, &sizes, drain, c[3].as_bool().unwrap_or(true));
+                let abandon = c.get(4).and_then(|a| a.as_array()).map(|a| (a[0].as_u64().unwrap_or(0) as usize, a[1].as_u64().unwrap_or(1) as usize));
+                let r = c19::raw_wire_case(rt, &sizes, drain, c[3].as_bool().unwrap_or(true), abandon);
                 (vec![format!("raw wire case {c}")], Ok(match r {
                     Ok(_) => Verdict::Pass(0),
                     Err((c, d)) => Verdict::fail(c, d),
@@ -371,6 +394,7 @@ fn main() {
         Some("c07-child") => c07_child(&tier),
         Some("c10-child") => c10_child(&tier),
         Some("c03-child") => c03_child(&tier),
+        Some("c02-child") => c02_child(&tier),
         Some("c08-child") => realsrv_child(&tier, false),
         Some("c18-child") => realsrv_child(&tier, true),
         Some("--replay") => replay(args.get(1).map(|s| s.as_str()).unwrap_or("")),
